@@ -62,12 +62,12 @@ def render(block, indent=0, lines=None):
             if s[2] is not None:
                 lines.append(pad + 'else:')
                 render(s[2], indent + 1, lines) if s[2] else lines.append(pad + '    pass')
-        elif k == 'for':
-            lines.append(pad + 'for _ in input():')
+        elif k in ('for', 'while'):
+            lines.append(pad + ('for _ in input():' if k == 'for' else 'while input():'))
             render(s[1], indent + 1, lines) if s[1] else lines.append(pad + '    pass')
-        elif k == 'while':
-            lines.append(pad + 'while input():')
-            render(s[1], indent + 1, lines) if s[1] else lines.append(pad + '    pass')
+            if len(s) > 2 and s[2] is not None:       # loop ... else: runs when the loop ends without break (always, here)
+                lines.append(pad + 'else:')
+                render(s[2], indent + 1, lines) if s[2] else lines.append(pad + '    pass')
         elif k == 'def':
             lines.append(pad + 'def %s():' % s[1])
             render(s[2], indent + 1, lines) if s[2] else lines.append(pad + '    pass')
@@ -251,6 +251,8 @@ def count_inputs(block):
                 n += count_inputs(b)
         elif s[0] in ('for', 'while'):
             n += 2 + 2 * count_inputs(s[1])
+            if len(s) > 2 and s[2] is not None:
+                n += count_inputs(s[2])
         elif s[0] == 'def':
             n += count_inputs(s[2])
     return n
@@ -331,6 +333,8 @@ def assignment_contexts(block, name, ctx=('top',)):
                 out |= assignment_contexts(b, name, ctx)
         elif s[0] in ('for', 'while'):
             out |= assignment_contexts(s[1], name, tuple(c for c in ctx if c in ('def',)) + (s[0],))
+            if len(s) > 2 and s[2] is not None:
+                out |= assignment_contexts(s[2], name, ctx)
         elif s[0] == 'def':
             out |= assignment_contexts(s[2], name, ('def',))
     return out
@@ -344,6 +348,9 @@ def flat_kinds(block):
                 yield from flat_kinds(b)
         elif s[0] in ('for', 'while'):
             yield from flat_kinds(s[1])
+            if len(s) > 2 and s[2] is not None:
+                yield 'loop-else'
+                yield from flat_kinds(s[2])
         elif s[0] == 'def':
             yield from flat_kinds(s[2])
 
@@ -434,7 +441,8 @@ def _block(depth, loops=False):
     ifs = st.tuples(st.just('if'), st.lists(inner, min_size=1, max_size=3), st.one_of(st.none(), inner)).map(list)
     options = [_simple(), _simple(), ifs]
     if loops:
-        options += [st.tuples(st.just('for'), inner).map(list), st.tuples(st.just('while'), inner).map(list)]
+        options += [st.tuples(st.just('for'), inner).map(list), st.tuples(st.just('while'), inner).map(list),
+                    st.tuples(st.sampled_from(['for', 'while']), inner, inner).map(list)]
     return st.lists(st.one_of(options), min_size=1, max_size=4)
 
 
